@@ -163,7 +163,7 @@ func (c09) Info() core.Info {
 			"EvalOne must return, the number of context polls after firing must be <= N*(D+2) (N = tokens of the input and session function bodies, D = call depth bound), the outcome must be an error/recovered panic (or a value if the work left was within the bound), virtual sleep must return at min(now+d, deadline), and the session must evaluate a probe afterwards. " +
 			"(b) depth: MaxDepth drawn from 10..3000, recursion (direct, mutual, through closures, through eval(), deeply nested source text) must end in the recoverable max-depth failure or a value, and a recursion calibrated to MaxDepth-eps must succeed right afterwards (depth counter reset). " +
 			"(c) process survival: child worker processes (address space limited with RLIMIT_AS, GOMEMLIMIT set) evaluate programs with repetition/range/concatenation/doubling operators whose operands cross 2^31 and 2^63 through repl.EvalStringWithOption; the child must exit normally reporting a result or the memory/depth guard; death by signal, 'fatal error', or exceeding the address-space net is a violation. " +
-			"(d) no-poll family in watchdog children: unjson/eval/macro bodies and run()/exec() followed by an endless loop under a virtual deadline. (e) realtimer: the real timer of SetContext, MaxDuration 150 ms under a host context without / with later / with earlier deadline, verdict: back within 12 s. " +
+			"(d) no-poll family in watchdog children: unjson/eval/macro bodies and run()/exec() followed by an endless loop under a virtual deadline. (e) realtimer: the real timer of SetContext, MaxDuration 150 ms under a host context without / with later / with earlier deadline, verdict: back within 8 s. " +
 			"distinct = distinct (sub-scenario, program, outcome class, deadline bucket); non-trivial = a deadline fired strictly inside the evaluation, a depth guard fired, or an allocation was refused.",
 		Real:        []string{"evaluator context polling (evalInternal), all loop forms, applyFunction, eval.State.Eval depth guard, repl.EvalOne recover/Reset", "object.MustBeOk/SizeOk/MakeObjectSlice guards with the simulator's free-memory answer (in-process) or the real runtime reading under GOMEMLIMIT (children)", "repl.EvalStringWithOption in child processes under RLIMIT_AS"},
 		Stubbed:     append([]string{"real wall-clock latency of cancellation is not decided (no real clock by construction): the deadline is a virtual tick"}, commonStubbed...),
@@ -265,7 +265,7 @@ func (c09) Generate(r *core.Rng, run int, tier string) *core.History {
 		// context that is unlimited, expires later, or expires earlier
 		h.Strs["sub"] = "realtimer"
 		h.Strs["key"] = []string{"parent-later", "background", "parent-earlier"}[(run/48)%3]
-		h.Events = []core.Event{{Ev: "program", Text: core.Pick(r, []string{`for true { }`, `x = 0; for true { x = x + 1 }`, `for true { for i = 1000 { i } }`})}}
+		h.Events = []core.Event{{Ev: "program", Text: []string{`for true { }`, `unjson("for true { }")`, `x = 0; for true { x = x + 1 }`, `eval("for true { }")`, `for true { for i = 1000 { i } }`}[(run/48)%5]}}
 		return h
 	}
 	if run%12 == 11 {
@@ -534,6 +534,10 @@ func (c09) execDepth(h *core.History) *core.Outcome {
 		st.Fault("depth_guard")
 		st.Nontrivial = true
 	case "value", "lang-error", "parse-error":
+		if n := strings.Count(prog, "-("); key == "nested-prefix" && r.Class == "value" && n > cfg.MaxDepth+2 {
+			// every prefix operator evaluates its operand one level deeper: a chain longer than the limit must hit the guard
+			fail("depth-limit-applies-to-nesting", fmt.Sprintf("MaxDepth=%d: a chain of %d nested prefix operators evaluated to %s instead of the max-depth failure", cfg.MaxDepth, n, trunc(r.Echo, 40)))
+		}
 	default:
 		fail("depth-failure-is-the-guard", fmt.Sprintf("MaxDepth=%d, %q ended as %s %v", cfg.MaxDepth, trunc(prog, 120), r.Class, truncAll(r.Errs)))
 	}
@@ -673,6 +677,12 @@ func (c09) execNoPoll(h *core.History) *core.Outcome {
 			if rep.Class == "value" {
 				o.Viol = &core.Violation{Oracle: "fired-deadline-reported", Sig: "C09|nopoll|endless-program-returned-value|" + key, Detail: fmt.Sprintf("%q returned a value", prog)}
 			}
+			if !rep.Fired && rep.Class != "value" {
+				// the program cannot end by itself and the virtual deadline never fired: something else (a private
+				// context with its own real-time default) stopped it, i.e. the configured deadline was not the one in force
+				o.Viol = &core.Violation{Oracle: "configured-deadline-in-force", Sig: "C09|nopoll|configured-deadline-in-force|" + key,
+					Detail: fmt.Sprintf("%q ended as %s although the virtual deadline at tick %d never fired", prog, rep.Class, h.C("fireat"))}
+			}
 			if rep.TicksAfter > 10000 {
 				o.Viol = &core.Violation{Oracle: "polls-after-deadline-bounded", Sig: "C09|nopoll|polls-after-deadline|" + key, Detail: fmt.Sprintf("%q: %d polls after the deadline fired", prog, rep.TicksAfter)}
 			}
@@ -808,7 +818,7 @@ func c09rWorker(args []string) int {
 }
 
 // execRealTimer: the only place where real time is judged, with a margin of two orders of magnitude: the evaluation
-// is limited to 150 ms (or 50 ms by the host), the verdict is "came back within 12 s".
+// is limited to 150 ms (or 50 ms by the host), the verdict is "came back within 8 s" (the default context of a private evaluator would be 10 s).
 func (c09) execRealTimer(h *core.History) *core.Outcome {
 	o := &core.Outcome{}
 	st := &o.Stats
@@ -839,7 +849,7 @@ func (c09) execRealTimer(h *core.History) *core.Outcome {
 	case json.Unmarshal(ob.Bytes(), &rep) != nil:
 		st.Discarded = true
 		st.Panic("bad c09r output " + trunc(ob.String(), 100))
-	case rep.Elapsed > 12000:
+	case rep.Elapsed > 8000:
 		o.Viol = &core.Violation{Oracle: "returns-within-real-deadline", Sig: "C09|realtimer|" + h.Strs["key"] + "|late",
 			Detail: fmt.Sprintf("%q with MaxDuration=150ms (host context: %s) returned after %d ms", prog, h.Strs["key"], rep.Elapsed)}
 	case !strings.Contains(strings.Join(rep.Errs, " "), "deadline exceeded"):
